@@ -333,9 +333,12 @@ def check_state(case, layer, twin, i, fails, after):
         for nmv in ("voltage", "refrac"):
             a, b = getattr(ln, nmv), getattr(n, nmv)
             if tuple(a.shape) != tuple(b.shape) or not teq(a, b):
-                fails.append({"step": i, "what": f"{nmv} of neuron group {s['name']} {after}: shape {tuple(a.shape)} vs "
-                              f"{tuple(b.shape)}", "signature": sig(case, "clear_neuron" if after.startswith("after clear")
-                                                                      else "state_neuron", refrac_t_zero=refrac0(case))})
+                why = (f"shape {tuple(a.shape)}, expected {tuple(b.shape)}" if tuple(a.shape) != tuple(b.shape) else
+                       f"values {a.reshape(-1).tolist()[:6]}, expected {b.reshape(-1).tolist()[:6]}")
+                fails.append({"step": i, "what": f"{nmv} of neuron group {s['name']} {after} differs from the reference "
+                              f"({'freshly built' if after.startswith('after clear') else 'standalone'} component): {why}",
+                              "signature": sig(case, "clear_neuron" if after.startswith("after clear")
+                                               else "state_neuron", refrac_t_zero=refrac0(case))})
         if hasattr(n, "threshold_adaptation") and not teq(ln.threshold_adaptation, n.threshold_adaptation):
             fails.append({"step": i, "what": f"adaptations of neuron group {s['name']} {after}",
                           "signature": sig(case, "adaptations")})
